@@ -165,7 +165,8 @@ structure Host where
 deriving Repr
 
 def Host.init (nq : Nat) : Host :=
-  ⟨World.init nq, List.replicate window 0, 0, false, stWaitingPrompt1, false, false⟩
+  -- `static struct dnload dnload` and `buffer` are zero-initialised
+  ⟨World.init nq, List.replicate window 0, 0, false, 0, false, false⟩
 
 /-- `memcpy`-like store of what `read()` delivered at `buffer + bufptr` -/
 def storeAt (buf : List Nat) (off : Nat) : List Nat → List Nat
